@@ -1,6 +1,7 @@
 """C12 driver: executes ONE history of loader operations in this (fresh) process and logs an event per operation.
 
 usage:  python -m harness.drivers.c12 run <script.json> <out.ndjson>
+        python -m harness.drivers.c12 runmany <list.json>              ([[script.json, out.ndjson], ...], one forked child each)
         python -m harness.drivers.c12 modtrace <module> <out.json>     (which theories does importing <module> load?)
         python -m harness.drivers.c12 graph <out.json>                 (imports and items of the library files; lazy-import table)
 
@@ -8,8 +9,15 @@ script = {"hid": str, "lib": path | null, "ops": [op...]}
   {"op": "import", "module": "data.real"}
   {"op": "load", "name": th, "limit": null | "start" | [ty, name]}
   {"op": "fault", "name": th}          load with an exception injected while th's own items are parsed (half way)
-  {"op": "touch", "name": th, "const": cname}     append a constant item to the scratch copy of th's file, new mtime
+  {"op": "touch", "name": th, "const": cname [, "at": index | "before": [ty, name]]}    insert a constant item into the scratch copy of
+                                       th's file (default: append), new mtime;  {"op": "touch", "name": th, "delete": index |
+                                       "delete_item": [ty, name]} deletes an item
   {"op": "reimport", "name": th, "imports": [..]} give the scratch copy of th's file another import list, new mtime
+  {"op": "create", "name": new, "copy": th [, "imports": [..]]}   new file = copy of th's current file (optionally other imports)
+  {"op": "remove", "name": th}         delete th's file from the scratch library
+Every event carries "fs": the log of the file operations done so far, [kind, file, arg, position, imports] with kind in
+create (arg = copied theory) / remove / ins (arg = constant name) / del / reimport, from which the trace specification computes
+the current content of the scratch library; "hist": [op, name, json of the operation] of the earlier operations.
   {"op": "items", "names": [th...]}    dump per-item extension names of the cached theories (canonical process only)
 Nothing under the repository is written: with "lib" set, the two path helpers of logic/basic.py are redirected to the
 scratch directory before the first load (path resolution only).  No verdict is computed here.
@@ -61,9 +69,42 @@ def project(thy):
     return dig, names
 
 
+def _write_json(path, data, mtime):
+    with open(path, "w", encoding="utf-8") as f:
+        json.dump(data, f)
+    os.utime(path, (mtime, mtime))
+
+
 def run(script_path, out_path):
-    script = json.load(open(script_path))
     install_smt_shim()
+    from logic import basic          # noqa: the loader must be importable without side effect
+    run_script(json.load(open(script_path)), out_path)
+
+
+def runmany(list_path):
+    """[[script.json, out.ndjson], ...]: every history in a forked child of a process that has only imported the loader
+    (the state a fresh process is in when `run` starts its first operation)."""
+    install_smt_shim()
+    from logic import basic          # noqa
+    from kernel import theory        # noqa
+    from server import items         # noqa
+    for sp, op in json.load(open(list_path)):
+        pid = os.fork()
+        if pid == 0:
+            rc = 0
+            try:
+                run_script(json.load(open(sp)), op)
+            except BaseException:      # noqa
+                import traceback
+                traceback.print_exc()
+                rc = 3
+            sys.stdout.flush()
+            sys.stderr.flush()
+            os._exit(rc)
+        os.waitpid(pid, 0)
+
+
+def run_script(script, out_path):
     from logic import basic
     from kernel import theory
     from server import items
@@ -73,11 +114,21 @@ def run(script_path, out_path):
         basic.user_file = lambda filename, username="master": os.path.join(lib, filename + ".json")
     out = open(out_path, "w")
     tid = 0
-    edits = []
-    reimports = []
+    fs = []          # log of the successful file operations on the scratch library: [kind, file, arg, pos, imports]
     hist = []
+    last_mtime = {}
+
+    def scratch_path(name):
+        assert script.get("lib"), "file operations need a scratch library"
+        return basic.user_file(name)
+
+    def new_mtime(path, name, dt=10):
+        # every version of a file gets a modification time of its own (dt may be negative: restored backup, cp -p)
+        old = os.path.getmtime(path) if os.path.exists(path) else last_mtime.get(name, time.time() - 1000)
+        return old + dt
+
     for op in script["ops"]:
-        ev = {"hid": script["hid"], "op": op["op"], "hist": list(hist), "edits": list(edits), "reimports": [list(r) for r in reimports]}
+        ev = {"hid": script["hid"], "op": op["op"], "hist": [list(h) for h in hist], "fs": [list(x) for x in fs]}
         t0 = time.time()
         try:
             if op["op"] == "import":
@@ -116,27 +167,59 @@ def run(script_path, out_path):
                 else:
                     basic.load_theory(op["name"], limit=None if lim is None else (lim if lim == "start" else tuple(lim)))
             elif op["op"] == "touch":
+                # position-aware edit of the scratch copy of th's file: insert a new constant item (default: append; "at": index;
+                # "before": [ty, name] = in front of that item) or delete an item ("delete": index; "delete_item": [ty, name])
                 ev["name"] = op["name"]
-                path = basic.user_file(op["name"])
+                path = scratch_path(op["name"])
                 data = json.load(open(path, encoding="utf-8"))
-                data["content"].append({"ty": "def.ax", "name": op["const"], "type": "bool"})
-                old = os.path.getmtime(path)
-                json.dump(data, open(path, "w", encoding="utf-8"))
-                dt = op.get("mtime_delta", 10)      # a changed file may also carry an OLDER modification time (restored backup, cp -p)
-                os.utime(path, (old + dt, old + dt))
-                edits.append([op["name"], op["const"]])
-                ev["edits"] = list(edits)
+                content = data["content"]
+
+                def index_of(key):
+                    for k, it in enumerate(content):
+                        if it.get("ty") == key[0] and it.get("name", "") == key[1]:
+                            return k
+                    raise KeyError("no item %s in %s" % (key, op["name"]))
+                if "delete" in op or "delete_item" in op:
+                    pos = op["delete"] if "delete" in op else index_of(op["delete_item"])
+                    if not 0 <= pos < len(content):
+                        raise IndexError("delete position %d outside %s" % (pos, op["name"]))
+                    del content[pos]
+                    entry = ["del", op["name"], "", pos, []]
+                else:
+                    pos = len(content) if op.get("at") is None else op["at"]
+                    if "before" in op:
+                        pos = index_of(op["before"])
+                    if not 0 <= pos <= len(content):
+                        raise IndexError("insert position %d outside %s" % (pos, op["name"]))
+                    content.insert(pos, {"ty": "def.ax", "name": op["const"], "type": "bool"})
+                    entry = ["ins", op["name"], op["const"], pos, []]
+                mt = new_mtime(path, op["name"], op.get("mtime_delta", 10))
+                _write_json(path, data, mt)
+                fs.append(entry)
             elif op["op"] == "reimport":
                 # the scratch copy of th's file gets another import list (and a new modification time)
                 ev["name"] = op["name"]
-                path = basic.user_file(op["name"])
+                path = scratch_path(op["name"])
                 data = json.load(open(path, encoding="utf-8"))
                 data["imports"] = list(op["imports"])
-                old = os.path.getmtime(path)
-                json.dump(data, open(path, "w", encoding="utf-8"))
-                os.utime(path, (old + 10, old + 10))
-                reimports.append([op["name"], list(op["imports"])])
-                ev["reimports"] = [list(r) for r in reimports]
+                _write_json(path, data, new_mtime(path, op["name"]))
+                fs.append(["reimport", op["name"], "", 0, list(op["imports"])])
+            elif op["op"] == "create":
+                # a new file in the scratch library: a copy of the CURRENT file of theory op["copy"], optionally with other imports
+                ev["name"] = op["name"]
+                path = scratch_path(op["name"])
+                data = json.load(open(scratch_path(op["copy"]), encoding="utf-8"))
+                if op.get("imports") is not None:
+                    data["imports"] = list(op["imports"])
+                mt = new_mtime(path, op["name"]) if (os.path.exists(path) or op["name"] in last_mtime) else time.time()
+                _write_json(path, data, mt)
+                fs.append(["create", op["name"], op["copy"], 0, list(data["imports"])])
+            elif op["op"] == "remove":
+                ev["name"] = op["name"]
+                path = scratch_path(op["name"])
+                last_mtime[op["name"]] = os.path.getmtime(path)
+                os.remove(path)
+                fs.append(["remove", op["name"], "", 0, []])
             elif op["op"] == "items":
                 tab = {}
                 for th in op["names"]:
@@ -149,6 +232,7 @@ def run(script_path, out_path):
         except BaseException as e:  # noqa
             ev["outcome"] = "exc:" + type(e).__name__
             ev["message"] = str(e)[:200]
+        ev["fs"] = [list(x) for x in fs]
         ev["secs"] = round(time.time() - t0, 2)
         if op["op"] in ("load", "fault") and ev["outcome"] == "ok":
             ev["digest"], ev["installed"] = project(theory.thy)
@@ -158,7 +242,7 @@ def run(script_path, out_path):
         ev["tid"] = tid
         out.write(json.dumps(ev, separators=(",", ":")) + "\n")
         out.flush()
-        hist.append([op["op"], op.get("name", op.get("module", ""))])
+        hist.append([op["op"], op.get("name", op.get("module", "")), json.dumps(op, sort_keys=True, separators=(",", ":"))])
     out.close()
 
 
@@ -223,6 +307,8 @@ def graph(out_path):
 if __name__ == "__main__":
     if sys.argv[1] == "run":
         run(sys.argv[2], sys.argv[3])
+    elif sys.argv[1] == "runmany":
+        runmany(sys.argv[2])
     elif sys.argv[1] == "modtrace":
         modtrace(sys.argv[2], sys.argv[3])
     elif sys.argv[1] == "graph":
